@@ -17,7 +17,9 @@ RULE = ("Hypothesis-generated process tensors: hand-built from ancilla environme
         "'file' and as 'simple' (and re-export of the file object); PT-TEMPO writing directly to a file vs in memory. "
         "Oracle: the original object - len, dt, dimension, transforms, name, description, every MPO tensor (transformed and "
         "raw), every cap, bond dimensions, initial tensor None (bitwise for stored data) - and identical results (1e-12) in "
-        "every consumer (compute_dynamics, compute_correlations, state_gradient, PtTebd). Non-trivial: length >= 2 and some "
+        "every consumer (compute_dynamics, compute_correlations, state_gradient, PtTebd), alone and (1/3 of the cases) "
+        "together with a second, different exported/imported process tensor as a second environment / second chain site, "
+        "with alternating reads from the two imported objects. Non-trivial: length >= 2 and some "
         "bond dimension >= 2; distinct = distinct canonical JSON.")
 TECHNIQUE = "Hypothesis property-based round-trip testing (export/import) with differential consumers"
 LEVEL_TEXT = ("Generated tensors are exported and re-imported in both import types; all stored content must be bit-identical "
@@ -44,6 +46,11 @@ def s_case(draw, tier):
         c.update(bath=draw(tempogen.bath_spec(2, custom_weight=0.0, temps=[0.0, 0.5], zetas=[1.0, 3.0])),
                  par=draw(tempogen.params_spec(2, tier, n_min=2, n_max=6, eps=[1e-8])),
                  direct_file=draw(st.booleans()))
+        N = c["par"]["N"]
+    # a second, different process tensor of the same length that is exported/imported too and used TOGETHER with the first
+    # (several environments in one computation; alternating reads from two open files)
+    if draw(st.integers(0, 2)) == 0:
+        c["companion"] = draw(ancgen.env_spec(2, N, e_max=3))
     return c
 
 
@@ -107,15 +114,17 @@ def probe_pt(pt, nprobes=4):
     return res
 
 
-def consume(kind, pt, H, rho0, dt):
+def consume(kind, pt, H, rho0, dt, comp=None):
     import oqupy
     from oqupy import operators
     N = len(pt)
     system = oqupy.System(H)
     kw = dict(progress_type="silent")
+    pts = pt if comp is None else [pt, comp]
     if kind == "dynamics":
-        return np.array(oqupy.compute_dynamics(system, rho0, process_tensor=pt, dt=dt if pt.dt is None else None, **kw).states)
+        return np.array(oqupy.compute_dynamics(system, rho0, process_tensor=pts, dt=dt if pt.dt is None else None, **kw).states)
     if kind == "correlations":
+        # compute_correlations takes exactly one process tensor
         return np.asarray(oqupy.compute_correlations(system, pt, operators.sigma("x"), operators.sigma("z"),
                                                      slice(None), slice(None), initial_state=rho0,
                                                      dt=dt if pt.dt is None else None, **kw)[1])
@@ -125,13 +134,14 @@ def consume(kind, pt, H, rho0, dt):
         sx = operators.sigma("x")
         psys = oqupy.ParameterizedSystem(lambda u: 0.5 * u * sx + H)
         params = np.linspace(0.1, 0.8, 2 * N).reshape(2 * N, 1)
-        return np.asarray(oqupy.state_gradient(psys, rho0, rho0.T.copy(), [pt], params, **kw)["gradient"])
+        return np.asarray(oqupy.state_gradient(psys, rho0, rho0.T.copy(), [pt] if comp is None else [pt, comp], params,
+                                               **kw)["gradient"])
     if kind == "tebd":
         sx = operators.sigma("x")
         chain = oqupy.SystemChain([2, 2])
         chain.add_site_hamiltonian(0, H)
         chain.add_nn_hamiltonian(0, sx, sx)
-        r = oqupy.PtTebd(oqupy.AugmentedMPS([rho0, rho0]), chain, [pt, None],
+        r = oqupy.PtTebd(oqupy.AugmentedMPS([rho0, rho0]), chain, [pt, comp],
                          oqupy.PtTebdParameters(dt, 1e-10, 2), dynamics_sites=[0, 1]).compute(N, **kw)
         return np.concatenate([np.array(r["dynamics"][0].states), np.array(r["dynamics"][1].states)])
     return None
@@ -183,6 +193,23 @@ def run_case(case):
             again = oqupy.import_process_tensor(fn2, "file")
             opened.append(again)
             compare_pts(out, "re-export", orig, again)
+        comp_o = comp_n = None
+        if case.get("companion") is not None and not out.fails:
+            out.label("with-companion")
+            comp_o = ancgen.build_env(case["companion"], 2, len(orig), dt=orig.dt)["pt"]
+            fn3 = os.path.join(tmp, "companion.hdf5")
+            comp_o.export(fn3)
+            comp_n = oqupy.import_process_tensor(fn3, case["import_type"])
+            opened.append(comp_n)
+            # alternating reads from the two imported objects
+            for k in range(len(orig)):
+                a1, c1 = new.get_mpo_tensor(k), comp_n.get_mpo_tensor(k)
+                a2 = new.get_mpo_tensor(k)
+                _same(out, "alternating/mpo", orig.get_mpo_tensor(k), a1)
+                _same(out, "alternating/mpo-companion", comp_o.get_mpo_tensor(k), c1)
+                _same(out, "alternating/mpo", orig.get_mpo_tensor(k), a2)
+                _same(out, "alternating/cap", orig.get_cap_tensor(k + 1), new.get_cap_tensor(k + 1))
+                _same(out, "alternating/cap-companion", comp_o.get_cap_tensor(k + 1), comp_n.get_cap_tensor(k + 1))
         if direct is not None:
             # same computation, two storage back-ends: tensors agree to rounding
             if len(direct) != len(orig):
@@ -201,8 +228,8 @@ def run_case(case):
                     b_ = consume(kind, direct, H, rho0, use_dt)
                     out.check_close("direct-file/" + kind, np.nan_to_num(b_), np.nan_to_num(a), ttol)
         if case["consumer"] != "none" and not out.fails:
-            a = consume(case["consumer"], orig, H, rho0, use_dt)
-            b_ = consume(case["consumer"], new, H, rho0, use_dt)
+            a = consume(case["consumer"], orig, H, rho0, use_dt, comp_o)
+            b_ = consume(case["consumer"], new, H, rho0, use_dt, comp_n)
             if a is not None:
                 if np.isnan(a).any():
                     if not np.array_equal(np.isnan(a), np.isnan(b_)):
